@@ -1,6 +1,7 @@
 From Coq Require Import Extraction ExtrOcamlBasic QArith.
-From BCT Require Import Model.Modularity.
+From BCT Require Import Model.Modularity Model.ModularityProb Model.ModularityGood.
 Extraction Language OCaml.
 (* coqc runs with cwd = /verif/coq *)
 Extraction "../ocaml/gen/c02_model.ml" run_finetune_und run_finetune_dir run_finetune_sign run_und_sign run_given
-  run_louvain_und run_louvain_dir run_louvain_sign run_community_louvain run_retained ls2ci Qred Z.add.
+  run_louvain_und run_louvain_dir run_louvain_sign run_community_louvain run_retained ls2ci
+  run_probtune run_louvain_und_good run_louvain_sign_good run_community_louvain_good sym_rowsb pos_totalb Qred Z.add.
